@@ -10,8 +10,9 @@ Open Scope R_scope.
 Definition colmat (c : list R) : list (list R) := map (fun v => [v]) c.
 Definition matcol (M : list (list R)) : list R := map (fun r => nth 0%nat r 0) M.
 
-Definition cossinR := cossin Rops.
-Definition harmonicsR := harmonics Rops.
+Definition cossinR := cossin Rops IZR.
+Definition harmonicsR := harmonics Rops IZR.
+Definition IbetaR := Ibeta Rops PI IZR.
 
 (* sum_k c_k x^(orders k) *)
 Definition eval_cos (order : nat) (odd : bool) (c : list R) (x : R) : R :=
@@ -29,7 +30,7 @@ Fixpoint legP_pair (n : nat) (x : R) : R * R :=      (* (P_n, P_{n-1}) *)
   match n with
   | O => (1, 0)
   | S n' => let '(p, pm) := legP_pair n' x in
-            (((2 * INR n' + 1) * x * p - INR n' * pm) / (INR n' + 1), p)
+            (((2 * IZR (Z.of_nat n') + 1) * x * p - IZR (Z.of_nat n') * pm) / (IZR (Z.of_nat n') + 1), p)
   end.
 Definition legP (n : nat) (x : R) : R := fst (legP_pair n x).
 
@@ -50,21 +51,84 @@ Ltac destruct_len c :=
                                     try (apply eq_add_S in H)
          end.
 
-Ltac all_orders order :=
-  do 9 (destruct order as [|order]; [|]); [| | | | | | | | | exfalso; cbn in *; lia].
 
-Local Ltac crunch :=
+(* evaluate the integer / rational tables of the model inside the goal *)
+Ltac eval_tables :=
+  repeat match goal with
+         | |- context [CHinv ?o ?b] =>
+           let t := eval vm_compute in (CHinv o b) in change (CHinv o b) with t
+         | |- context [CSmat ?o] =>
+           let t := eval vm_compute in (CSmat o) in change (CSmat o) with t
+         | |- context [orders ?o ?b] =>
+           let t := eval vm_compute in (orders o b) in change (orders o b) with t
+         | |- context [sinpowers ?o ?b] =>
+           let t := eval vm_compute in (sinpowers o b) in change (sinpowers o b) with t
+         end.
+
+Ltac crunch :=
   cbv [eval_cos eval_cossin eval_harm cossinR cossin harmonicsR harmonics colmat matcol
-       orders sinpowers CSmat pascal_upper flip2 binom nmat mmul matmul ncols mcol dot evens odds
-       interleave ofnat ofZ ofrat CHmat lcoef legendre legendre_pair poly_add poly_scale poly_shift
-       rat_add rat_scale rat_red back_subst row_sub row_scale row_div
+       nmat mmul matmul ncols mcol dot evens odds interleave ofnat ofrat
        Rops f0 f1 fadd fsub fmul fdiv fopp
        map seq rev app combine fold_left fst snd hd tl nth skipn length Nat.eqb Nat.add Nat.mul Nat.sub
-       Nat.div Nat.modulo Nat.divmod Nat.leb pow
-       Z.gcd Z.eqb Z.div Z.div_eucl Z.pos_div_eucl Z.mul Z.add Z.opp Z.of_nat Z.to_pos Z.ltb Z.leb Z.compare Z.sub
-       Z.pos_sub Z.succ_double Z.pred_double Z.double Z.abs Z.sgn Z.ggcd Z.geb
-       Pos.gcd Pos.gcdn Pos.mul Pos.add Pos.of_nat Pos.of_succ_nat Pos.to_nat Pos.iter_op Pos.succ Pos.compare
-       Pos.compare_cont Pos.sub Pos.sub_mask Pos.double_mask Pos.succ_double_mask Pos.double_pred_mask
-       Pos.pred_double Pos.size_nat Pos.eqb Pos.leb Pos.ltb Pos.pred Pos.add_carry Pos.sub_mask_carry
-       Pos.ggcd Pos.ggcdn Pos.divide
-       legP legP_pair INR].
+       Nat.div Nat.modulo Nat.divmod pow Z.of_nat Pos.of_succ_nat Pos.succ
+       legP legP_pair].
+
+Ltac one_case tac :=
+  intros;
+  unfold eval_cossin, eval_cos, eval_harm, cossinR, cossin, harmonicsR, harmonics;
+  eval_tables; crunch; tac.
+
+(* cos^n -> cos^n sin^m: same function of the angle, all 18 (order, odd) cases *)
+Theorem cossin_same_function : forall (order : nat) (odd : bool) (c : list R) (x : R),
+  (order <= 8)%nat -> length c = nterms order odd ->
+  eval_cossin order odd (matcol (cossinR order odd (colmat c))) x = eval_cos order odd c x.
+Proof.
+  intros order odd c x Ho Hlen.
+  destruct order as [|[|[|[|[|[|[|[|[|order]]]]]]]]]; [ | | | | | | | | | exfalso; lia];
+    destruct odd;
+    (match type of Hlen with _ = ?r => let v := eval vm_compute in r in change r with v in Hlen end);
+    destruct_len c; clear Ho;
+    (unfold eval_cossin, eval_cos, cossinR, cossin; eval_tables; crunch; ring).
+Qed.
+
+(* cos^n -> Legendre: same function of the angle, all 18 (order, odd) cases *)
+Theorem harmonics_same_function : forall (order : nat) (odd : bool) (c : list R) (x : R),
+  (order <= 8)%nat -> length c = nterms order odd ->
+  eval_harm order odd (matcol (harmonicsR order odd (colmat c))) x = eval_cos order odd c x.
+Proof.
+  intros order odd c x Ho Hlen.
+  destruct order as [|[|[|[|[|[|[|[|[|order]]]]]]]]]; [ | | | | | | | | | exfalso; lia];
+    destruct odd;
+    (match type of Hlen with _ = ?r => let v := eval vm_compute in r in change r with v in Hlen end);
+    destruct_len c; clear Ho;
+    (unfold eval_harm, eval_cos, harmonicsR, harmonics; eval_tables; crunch; field).
+Qed.
+
+(* the Legendre functions used above are the usual ones *)
+Lemma legP_values x : legP 0 x = 1 /\ legP 1 x = x /\ legP 2 x = (3 * x * x - 1) / 2.
+Proof. unfold legP. cbn [legP_pair fst Z.of_nat Pos.of_succ_nat]. repeat split; field. Qed.
+
+(* Ibeta(window = 1):  I = 4 pi r^2 P0,  beta_n = P_n / P0 where P0 <> 0, else 0 *)
+Theorem Ibeta_def : forall order odd rs cn,
+  let harm := harmonicsR order odd cn in
+  IbetaR order odd 1 rs cn =
+  map (fun p => 4 * PI * (fst p * fst p) * snd p) (combine rs (hd [] harm))
+  :: map (fun row => map (fun p => if Reqb (snd p) 0 then 0 else fst p / snd p) (combine row (hd [] harm)))
+         (tl harm).
+Proof. intros. reflexivity. Qed.
+
+Lemma beta_times_P0 pn p0 : p0 <> 0 -> (if Reqb p0 0 then 0 else pn / p0) * p0 = pn.
+Proof. intros H. rewrite Reqb_false by exact H. field. exact H. Qed.
+
+(* window > 1: the ratio is taken between the moving averages *)
+Theorem Ibeta_window : forall order odd window rs cn, (1 < window)%nat ->
+  let harm := harmonicsR order odd cn in
+  let avg := uniform_filter Rops IZR window in
+  tl (IbetaR order odd window rs cn) =
+  map (fun row => map (fun p => if Reqb (snd p) 0 then 0 else fst p / snd p)
+                      (combine row (avg (hd [] harm))))
+      (map avg (tl harm)).
+Proof.
+  intros order odd window rs cn Hw. cbv zeta. unfold IbetaR, Ibeta. cbn [tl].
+  replace (1 <? window)%nat with true by (symmetry; apply Nat.ltb_lt; exact Hw). reflexivity.
+Qed.
